@@ -77,6 +77,7 @@ impl<T> Tagged<RcInner<T>> {
         if self.is_null() {
             self
         } else {
+            vy!(120, 0, 0);
             self.with_high_tag(global_epoch())
         }
     }
@@ -140,6 +141,7 @@ impl<T: RcObject> AtomicRc<T> {
     /// Panics if `order` is `Release` or `AcqRel`.
     #[inline]
     pub fn load<'g>(&self, order: Ordering, guard: &'g Guard) -> Snapshot<'g, T> {
+        vy!(121, &self.link as *const _, 0);
         Snapshot::from_raw(self.link.load(order), guard)
     }
 
@@ -150,7 +152,9 @@ impl<T: RcObject> AtomicRc<T> {
     #[inline]
     pub fn store(&self, ptr: Rc<T>, order: Ordering, guard: &Guard) {
         let new_ptr = ptr.ptr;
+        vy!(122, &self.link as *const _, crate::verif::w(&new_ptr));
         let old_ptr = self.link.swap(new_ptr.with_timestamp(), order);
+        vy!(1022, &self.link as *const _, crate::verif::w(&old_ptr));
         // Skip decrementing a strong count of the inserted pointer.
         forget(ptr);
         unsafe {
@@ -169,7 +173,9 @@ impl<T: RcObject> AtomicRc<T> {
     #[inline(always)]
     pub fn swap(&self, new: Rc<T>, order: Ordering) -> Rc<T> {
         let new_ptr = new.into_raw();
+        vy!(122, &self.link as *const _, crate::verif::w(&new_ptr));
         let old_ptr = self.link.swap(new_ptr.with_timestamp(), order);
+        vy!(1022, &self.link as *const _, crate::verif::w(&old_ptr));
         Rc::from_raw(old_ptr)
     }
 
@@ -201,6 +207,7 @@ impl<T: RcObject> AtomicRc<T> {
         let mut expected_raw = expected.ptr;
         let desired_raw = desired.ptr.with_timestamp();
         loop {
+            vy!(123, &self.link as *const _, crate::verif::w(&expected_raw));
             match self
                 .link
                 .compare_exchange(expected_raw, desired_raw, success, failure)
@@ -253,6 +260,7 @@ impl<T: RcObject> AtomicRc<T> {
         let mut expected_raw = expected.ptr;
         let desired_raw = desired.ptr.with_timestamp();
         loop {
+            vy!(123, &self.link as *const _, crate::verif::w(&expected_raw));
             match self
                 .link
                 .compare_exchange_weak(expected_raw, desired_raw, success, failure)
@@ -310,6 +318,7 @@ impl<T: RcObject> AtomicRc<T> {
         let mut expected_raw = expected.ptr;
         let desired_raw = expected_raw.with_tag(desired_tag).with_timestamp();
         loop {
+            vy!(123, &self.link as *const _, crate::verif::w(&expected_raw));
             match self
                 .link
                 .compare_exchange(expected_raw, desired_raw, success, failure)
@@ -457,6 +466,7 @@ impl<T: RcObject> Rc<T> {
     #[inline(always)]
     pub fn new(obj: T) -> Self {
         let ptr = RcInner::alloc(obj, 1);
+        vy!(1103, ptr, 1);
         Self {
             ptr: Raw::from(ptr),
             _marker: PhantomData,
@@ -472,6 +482,7 @@ impl<T: RcObject> Rc<T> {
     #[inline(always)]
     pub fn new_many<const N: usize>(obj: T) -> [Self; N] {
         let ptr = RcInner::alloc(obj, N as _);
+        vy!(1103, ptr, N);
         [(); N].map(|_| Self {
             ptr: Raw::from(ptr),
             _marker: PhantomData,
@@ -487,6 +498,7 @@ impl<T: RcObject> Rc<T> {
     #[inline(always)]
     pub fn new_many_iter(obj: T, count: usize) -> NewRcIter<T> {
         let ptr = RcInner::alloc(obj, count as _);
+        vy!(1103, ptr, count);
         NewRcIter {
             remain: count,
             ptr: Raw::from(ptr),
